@@ -168,6 +168,11 @@ func (c *Command) scanSubcommandHandler(parentg *Group) scanHandler {
 			for i := 0; i < stype.NumField(); i++ {
 				field := stype.Field(i)
 
+				// Skip unexported fields, they cannot be set
+				if field.PkgPath != "" {
+					continue
+				}
+
 				m := newMultiTag((string(field.Tag)))
 
 				if err := m.Parse(); err != nil {
